@@ -25,6 +25,7 @@ import (
 	"sync"
 	"time"
 
+	"github.com/AdguardTeam/AdGuardDNS/internal/dnsmsg"
 	"github.com/AdguardTeam/AdGuardDNS/internal/dnsserver"
 	"github.com/AdguardTeam/AdGuardDNS/verif/kernel"
 	"github.com/AdguardTeam/AdGuardDNS/verif/simnet"
@@ -95,6 +96,11 @@ type pipeline struct {
 	// observe, if set, is called inside the handler with the request's
 	// context (what the transport tells the handler about the request).
 	observe func(ctx context.Context, rw dnsserver.ResponseWriter, req *dns.Msg)
+
+	// cloner, if set, is the production message cloner: the handler writes a
+	// clone of its response, as the caches of the real stack do, and the
+	// servers dispose of what they have written into the same pools.
+	cloner *dnsmsg.Cloner
 }
 
 func hashQ(q dns.Question) uint32 {
@@ -270,6 +276,10 @@ func (p *pipeline) ServeDNS(ctx context.Context, rw dnsserver.ResponseWriter, re
 		resp.SetEdns0(4096, true)
 	}
 
+	if p.cloner != nil {
+		resp = p.cloner.Clone(resp)
+	}
+
 	return rw.WriteMsg(ctx, req, resp)
 }
 
@@ -350,6 +360,9 @@ func startServers(s *kernel.Sim, n *simnet.Net, p *pipeline, o serverOpts) (sv *
 			Metrics:      sv.metrics,
 			ListenConfig: n,
 			Disposer:     sv.disposer,
+		}
+		if p.cloner != nil {
+			cb.Disposer = p.cloner
 		}
 		if o.reqTimeout > 0 {
 			cb.RequestContext = dnsserver.NewTimeoutContextConstructor(o.reqTimeout)
